@@ -5,7 +5,7 @@
 # runs tools/tryneutral.sh; prints one line per patch with the checks that were
 # NOT silent.
 rd="$1"; jobs="${2:-3}"
-cd /verif
+cd "$(dirname "$(realpath "$0")")/.." || exit 2
 one() {
   id="$1"; rd="$2"; d=$rd/out/$id
   [ -f $d/patch.diff ] || { echo "== $id: no patch"; return; }
